@@ -4,6 +4,6 @@ from props.common import corpus_check
 
 
 def run(ctx):
-    r = corpus_check(ctx, "C12", oracles.c12)
+    r = corpus_check(ctx, "C12", oracles.c12, use_l1=False)
     r["disagreements"] = []   # the JSON is produced by the analyzer; the back-end correspondence does not concern it
     return r
